@@ -334,9 +334,104 @@ func checkC17CLI(c c17CLICase, ctx *vCtx) *vFailure {
 	return nil
 }
 
+// ---------------------------------------------------------------------------
+// every boolean option the program declares (read from its flag definitions at run time), as flag and as environment
+// variable, with and without a period that ends before the last record: the exit status rule must hold under all of them
+
+type c17SurfaceCase struct {
+	Cmd    int    `json:"cmd"`   // index into c10CLICmds
+	Where  string `json:"where"` // "global" | "command" | "env"
+	Name   string `json:"name"`  // "--flag" or the environment variable
+	Period bool   `json:"period"`
+	Big    bool   `json:"big"`
+}
+
+func c17CmdPath(args []string) []string {
+	if args[0] == "csv" || args[0] == "report" {
+		return args[:2]
+	}
+	return args[:1]
+}
+
+func checkC17Surface(c c17SurfaceCase, ctx *vCtx) *vFailure {
+	cmd := c10CLICmds[c.Cmd]
+	lp, bp := c17FilesN(12)
+	if c.Big {
+		lp, bp = c17Files(true)
+	}
+	args := make([]string, len(cmd.args))
+	for i, a := range cmd.args {
+		args[i] = strings.ReplaceAll(strings.ReplaceAll(a, "@LOG@", lp), "@BOOK@", bp)
+	}
+	global := []string{"--today", vToday, "-d", bp, "-l", lp}
+	if c.Period {
+		global = append(global, "-b", vFmtDay(1, ""), "-e", vFmtDay(5, ""))
+	}
+	env := map[string]string{}
+	n := len(c17CmdPath(cmd.args))
+	switch c.Where {
+	case "global":
+		global = append(global, c.Name)
+	case "command":
+		args = append(append(append([]string{}, args[:n]...), c.Name), args[n:]...)
+	case "env":
+		env[c.Name] = "1"
+	}
+	inv := vInvocation{Args: append(global, args...), Env: env}
+	r := vRunApp(inv)
+	ctx.Run(1)
+	ctx.Label("where:" + c.Where)
+	if r.Failed || r.Stdout == "" {
+		ctx.Excluded("the option makes the command fail or print nothing")
+		return nil
+	}
+	ctx.NonTrivial(true)
+	df, err := os.OpenFile("/dev/full", os.O_WRONLY, 0)
+	if err != nil {
+		vFault("cannot open /dev/full: %v", err)
+	}
+	defer df.Close()
+	fr := vRunAppTo(inv, df)
+	ctx.Run(1)
+	if fr.Panic != "" {
+		return vFailf("%v (env %v) panics with stdout = /dev/full: %s", inv.Args, env, vTrunc(fr.Panic, 800))
+	}
+	if !fr.Failed {
+		return vFailSig("C17/cli/"+cmd.args[0]+"/exit-zero", "%v (env %v) ends with status 0 although its report (%d bytes) could not be written (/dev/full)", inv.Args, env, len(r.Stdout))
+	}
+	return nil
+}
+
+func c17SurfaceSpace() []c17SurfaceCase {
+	var out []c17SurfaceCase
+	for ci, cmd := range c10CLICmds {
+		if cmd.empty {
+			continue
+		}
+		for _, o := range vSurfaceBools(c17CmdPath(cmd.args)) {
+			for _, period := range []bool{false, true} {
+				for _, big := range []bool{false, true} {
+					out = append(out, c17SurfaceCase{Cmd: ci, Where: o.Where, Name: o.Name, Period: period, Big: big})
+				}
+			}
+		}
+	}
+	return out
+}
+
+func TestVerifC17Surface(t *testing.T) {
+	space := c17SurfaceSpace()
+	vEnum(t, "C17", "c17.surface",
+		"every boolean option the program declares (global and per command, read from the flag definitions of the running program, also through its environment variable) x 18 command lines x {no period, a period that ends before the last record} x {small, large report}, stdout = /dev/full in process; must end with a non-zero status whenever the same invocation prints a non-empty report to a working stdout",
+		fmt.Sprintf("%d combinations", len(space)), len(space), func(i int) c17SurfaceCase { return space[i] }, checkC17Surface)
+}
+
 func c17CLISpace() []c17CLICase {
 	var out []c17CLICase
 	for ci := range c10CLICmds {
+		if c10CLICmds[ci].empty {
+			continue
+		}
 		for _, sink := range []string{"devfull-inprocess", "devfull-binary", "closed-pipe-binary"} {
 			for _, big := range []bool{false, true} {
 				out = append(out, c17CLICase{Cmd: ci, Sink: sink, Big: big})
@@ -437,6 +532,9 @@ func c17SweepSpace() []c17SweepCase {
 }
 
 func TestVerifC17Sweep(t *testing.T) {
+	if !vAPIGuard(t, "c17.sweep") {
+		return
+	}
 	space := c17SweepSpace()
 	vEnum(t, "C17", "c17.sweep",
 		"report sizes swept finely: for every command function a log of 1..140 (thorough 260) days (report lengths from a few bytes to ~60 KiB, so the end of the report falls at every residue of the 4 KiB / 32 KiB buffers), sink failing at {1, n/2, n-1, n-100, n-300, n-600, n-2000}; plus logs with one food name of 4097/5000/9000 bytes (longer than the output buffer) with the sink failing every 509 bytes; must return an error",
@@ -447,9 +545,13 @@ func init() {
 	vRegister("C17", "c17.sweep", checkC17Sweep)
 	vRegister("C17", "c17.writer", checkC17)
 	vRegister("C17", "c17.cli", checkC17CLI)
+	vRegister("C17", "c17.surface", checkC17Surface)
 }
 
 func TestVerifC17Writer(t *testing.T) {
+	if !vAPIGuard(t, "c17.writer") {
+		return
+	}
 	vRapid(t, "C17", "c17.writer",
 		"every exported command function with an injectable output (22 register/balance/csv/print/summary/report/lint variants + stats) on generated books/logs whose reports range from empty to several 4096-byte blocks; the sink accepts exactly k bytes then fails (ENOSPC, EPIPE or short write) for EVERY k in [0,n) when n <= 2000 (20000 thorough), else k in {0,1,n-1, every 4096 boundary +-1, 40 drawn}; must return an error; control k = n succeeds with the complete report; evaluations count (inputs, command) pairs, program_runs the individual fault offsets; non-trivial = report longer than one byte",
 		vBudget(960, 6000), genC17, checkC17)
